@@ -8,6 +8,7 @@ import shutil
 import signal
 import subprocess
 import sys
+import threading
 from concurrent.futures import ThreadPoolExecutor
 
 sys.path.insert(0, os.path.join(os.path.dirname(os.path.dirname(os.path.abspath(__file__))), "common"))
@@ -382,8 +383,11 @@ class Builder:
         os.makedirs(d, exist_ok=True)
         src = os.path.join(d, "unit.dora")
         if not os.path.exists(src):
-            with open(src, "w") as f:
+            # several configurations of one unit are built concurrently: the source appears atomically, complete
+            tmp = "%s.%d.%d.tmp" % (src, os.getpid(), threading.get_ident())
+            with open(tmp, "w") as f:
                 f.write(unit.source())
+            os.replace(tmp, src)
         exe = os.path.join(d, "unit-%s-%s" % (backend, gc or "default"))
         ok, err = self.tc.compile(src, exe, backend, gc=gc)
         return exe if ok else None, err
